@@ -109,7 +109,9 @@ CLAIMS = {
  'C02': dict(
     text='(a) Termination, proved for the model: the fragmenting loop terminates within |text|+1 steps for every replacement pattern and the escaped-quote search '
          'within |text|+2, so the inline layer never exhausts its own fuel; line-macro expansions never nest deeper than MAX_EXPANSION_DEPTH and a refused expansion '
-         'inserts nothing; every pattern iterated by sub/split/fragmenting consumes at least one character per match (regenerated facts). A fuel bound for '
+         'inserts nothing; every pattern iterated by sub/split/fragmenting consumes at least one character per match (regenerated facts). Fuel is only a '
+         'termination device (fuel_is_only_a_termination_device): a render of the model that ends in anything but outOfFuel ends identically at every larger fuel, '
+         'for every function of the model, so the answers the theorems speak about do not depend on the fuel. A fuel bound for '
          'the block-level loops is not proved. (b) Bounded work is exploration: pumped inputs (4 KB quick / 8 KB thorough) in safe modes 1-7 must render within a '
          'CPU-time ceiling with at most quadratic growth; recursive-macro documents must finish on the implementation whenever the model terminates.',
     note=COMMON_NOTE + 'Partial: termination of the inline layer and the depth bound are proofs; block-level termination bound and the running time of CPython sre are '
